@@ -96,7 +96,7 @@ class QScope:
 
 
 class Obligation:
-    __slots__ = ("name", "pc", "goal", "info", "verdict", "model", "secs", "backend", "path", "zmodel", "hints", "group")
+    __slots__ = ("name", "pc", "goal", "info", "verdict", "model", "secs", "backend", "path", "zmodel", "hints", "group", "optional")
 
     def __init__(self, name, pc, goal, info=None):
         self.name = name
@@ -111,6 +111,7 @@ class Obligation:
         self.zmodel = None
         self.hints = []
         self.group = None
+        self.optional = []        # [(name, formula)]: optional invariants in force when the obligation was generated
 
 
 class Ctx:
@@ -132,6 +133,7 @@ class Ctx:
         self.guards = []
         self.no_fork = 0
         self.witnesses = []       # Int terms usable as candidate witnesses for existential goals
+        self.optional = []        # optional invariants: used for an obligation only if it fails without them (see unit.py)
         self.log = []             # ghost call log
         self.ghost = {}           # free-form ghost state for contracts
         self.pruned = 0
@@ -179,6 +181,12 @@ class Ctx:
         if not has_quant(t):
             self.solver.add(t)
 
+    def assume_optional(self, name, formula):
+        """An invariant that another unit establishes but that this code may not need: it is kept out of the path condition and
+        added only to re-try an obligation that failed without it; the obligation then records `needs: [name]` and the check
+        requires the providing obligations (run.py).  Obligations that hold without it never depend on it."""
+        self.optional.append((name, formula))
+
     def oblige(self, name, goal, **info):
         if self.qscopes and info.get("kind") == "side":
             # element-wise side conditions inside a quantifier body (e.g. REAL-model divisor != 0 for every element) are not
@@ -189,9 +197,12 @@ class Ctx:
         ob = Obligation(name, list(self.pc), g, info)
         ob.path = list(self.decisions[: self.pos])
         ob.hints = list(self.size_hints)
+        ob.optional = list(self.optional)
         self.obligations.append(ob)
-        # continue under the assumption that it holds (standard assert-then-assume)
-        if not z3.is_true(g):
+        # continue under the assumption that it holds (standard assert-then-assume).  A goal that is literally `false` (a concrete
+        # run-time contract that failed, an event that must not happen) is not assumed: it would make every later obligation of the
+        # path hold vacuously and hide independent failures behind the first one
+        if not z3.is_true(g) and not z3.is_false(g):
             self.pc.append(g)
             if not has_quant(g):
                 self.solver.add(g)
@@ -207,11 +218,12 @@ class Ctx:
             ob = Obligation(name, pc0, g, dict(info))
             ob.path = list(self.decisions[: self.pos])
             ob.hints = list(self.size_hints)
+            ob.optional = list(self.optional)
             ob.group = self.ngroup
             self.obligations.append(ob)
             obs.append(ob)
         for ob in obs:
-            if not z3.is_true(ob.goal):
+            if not z3.is_true(ob.goal) and not z3.is_false(ob.goal):
                 self.pc.append(ob.goal)
                 if not has_quant(ob.goal):
                     self.solver.add(ob.goal)
